@@ -269,7 +269,8 @@ example : (EndToEnd.dumpOf EndToEnd.noPlist (encodeV2 k1File2)).toOption.map (fu
   same counters), with the `construct` parsers as primitives and `from_kd_buf` as a parameter. -/
 
 /-- **The translated source is the program the refinement lemmas were proved for** (`Spec/PyIRRdExpected`, quoting the
-    Python), and the translator met nothing outside the subset. -/
+    Python), and the translator met nothing outside the subset.  The program includes the constructor
+    `KdBufParser.__init__` (`prog.init`; `C03.kd_init_ir_eq_model`). -/
 theorem source_is_expected_ir : Gen.PyIRRd.prog = PyIRRd.Expected.prog ∧ Gen.PyIRRd.notes = [] := by decide
 
 /-- **`set_thread_map`, interpreted, is `setThreadMap`**: both tables are cleared first (no residue of an earlier
